@@ -116,7 +116,7 @@ func c16Trans(thorough bool) func(c *Ctx, pre *Node, st Step, res *Result, post 
 func checkC16(e *RunEnv) *CheckResult {
 	spec := &Spec{
 		Seeds:      corpusSeeds(),
-		Depth: e.depth(2, 3),
+		Depth: e.depth(2, 4),
 		Steps:      corpusSteps,
 		CheckTrans: c16Trans(e.Thorough()),
 	}
